@@ -5,6 +5,15 @@ package scen
 // C14 scenarios for the record stores and the keystores, each directly over
 // the simulated datastore (every operation parks): "provider-manager",
 // "value-store", "keystore", "resettable-keystore".
+//
+// resettable-keystore, factory mode: the per-slot datastores are created by
+// the keystore through the factory, so it owns and closes them; they are
+// wrapped in c14OwnedDS (rules owned-ds-closed-in-use / owned-ds-use-after-
+// close, see c14_ownedds.go). Close is aimed, with a drawn chance, at the n-th
+// datastore call made under a reset's context (every phase of a reset is a
+// likely target, not only the long bulk phase), and the drain serves cancelled
+// and live calls in a drawn order (cancel-last: a scan inside the datastore
+// may notice its cancellation only after Close's own writes were served).
 
 import (
 	"context"
@@ -47,7 +56,7 @@ func init() {
 	sim.Register(&sim.Scenario{Prop: "C14", Name: "resettable-keystore", Weight: 3, Run: func(s *sim.Sim) { runC14Keystore(s, true) },
 		Real:   []string{"keystore.NewResettableKeystore / worker / ResetCids (phases A-C, cleanup) / Close (waits for in-flight alt-datastore write)", "shared-datastore and factory mode", "keystore operations in flight, Puts buffered during a reset (back-pressure)"},
 		Stub:   append([]string{"datastore factory (simds instances)"}, stub...),
-		Faults: append(append([]string{"probe_close_during_reset", "probe_close_op_queued", "probe_cfg_factory_mode", "probe_reset_completed", "fault_ds_error_commit", "fault_ds_error_query", "fault_ds_error_has"}, c14OverlapFaults...), c14CommonFaults...),
+		Faults: append(append([]string{"probe_close_during_reset", "probe_close_op_queued", "probe_cfg_factory_mode", "probe_reset_completed", "probe_close_during_reset_scan", "probe_close_aimed_at_reset_op", "probe_owned_ds_closed", "fault_ds_error_commit", "fault_ds_error_query", "fault_ds_error_has"}, c14OverlapFaults...), c14CommonFaults...),
 	})
 }
 
@@ -212,7 +221,7 @@ func runC14Keystore(s *sim.Sim, resettable bool) {
 
 	var ks keystore.Keystore
 	var rks *keystore.ResettableKeystore
-	var factoryDS []*simds.DS
+	var factoryDS []*c14OwnedDS
 	factory := false
 	if resettable {
 		factory = s.Chance("factory", 1, 2)
@@ -225,8 +234,9 @@ func runC14Keystore(s *sim.Sim, resettable bool) {
 			opts = append(opts, keystore.WithDatastoreFactory(func(suffix string) (ds.Batching, error) {
 				x := simds.New(s, fmt.Sprintf("ks%s.%d", suffix, len(factoryDS)))
 				x.ParkOp = park
-				factoryDS = append(factoryDS, x)
-				return x, nil
+				o := newC14OwnedDS(x)
+				factoryDS = append(factoryDS, o)
+				return o, nil
 			}, func(string) error { return nil }))
 		}
 		var err error
@@ -442,11 +452,60 @@ func runC14Keystore(s *sim.Sim, resettable bool) {
 		if busy > 1 {
 			s.Count("probe_close_op_queued")
 		}
+		// Close meets a reset inside the key scan of the slot it is filling
+		// (factory mode: a store that Close itself is going to close)
+		for _, c := range resets {
+			for _, o := range factoryDS {
+				if c.started && !c.op.Done && o.busyWith("query@"+c.tag) {
+					s.Count("probe_close_during_reset_scan")
+				}
+			}
+		}
+	}
+	if factory {
+		seenClosed := false
+		f.check = func() {
+			for _, o := range factoryDS {
+				if !seenClosed && o.closedCount() > 0 {
+					seenClosed = true
+					s.Count("probe_owned_ds_closed")
+				}
+			}
+			c14OwnedCheck(s, name, factoryDS)
+		}
 	}
 	f.closeFn = ks.Close
 	f.overlapOK = true
 	f.closeAt = s.Range("close-at", 0, 40)
+	if resettable && s.Chance("close-on-reset-op", 1, 2) {
+		// Aim Close at a position in the life of a reset rather than at a step
+		// count: at the instant the n-th datastore call made under a reset's
+		// context (by ResetCids itself or by the worker on its behalf: preparing
+		// the slot, bulk writes, flush, key scan, catch-up, marker, tear-down)
+		// is parked. A reset is a handful of such calls long, the step count is
+		// spread over the whole workload; every position is reachable either way.
+		nth := s.Range("reset-op-nth", 1, 10)
+		seen := map[*sim.Parked]bool{}
+		f.closeAt = 60
+		f.closeNow = func() bool {
+			for _, p := range s.ParkedKind("ds") {
+				if seen[p] || f.prio(p) != 1 {
+					continue
+				}
+				seen[p] = true
+				if len(seen) == nth {
+					s.Count("probe_close_aimed_at_reset_op")
+					return true
+				}
+			}
+			return false
+		}
+	}
 	f.interleave = s.Draw("interleave", 10)
+	// the order in which the drain serves live and cancelled calls (a scan that
+	// is inside the datastore may notice its cancellation only after Close's
+	// own writes were served)
+	f.cancelLast = s.Chance("cancel-last", 1, 2)
 	f.run()
 	c14Teardown(s, f)
 	s.Finish()
